@@ -2,7 +2,6 @@ package engine
 
 import (
 	"bytes"
-	"fmt"
 	"strings"
 	"testing"
 )
@@ -213,7 +212,8 @@ func (o *c14Oracle) AfterRun(w *World, op *Op, res *RunResult) {
 		}
 	}
 	if op.HasTag("setup") && !res.OK() {
-		w.Harness = fmt.Sprintf("setup run failed: stage=%s err=%s", res.Stage, res.Err)
+		// a default run over a sound forest whose artifacts hold, at most, a usable key each
+		w.Fail("first-generation-failed-on-runnable-world", "stage=%s err=%s", res.Stage, res.Err)
 		return
 	}
 	if !res.OK() {
